@@ -81,6 +81,12 @@ def ResV.errVal {ε α} [Inhabited ε] : ResV ε α → ε
   | .ok _ => default
   | .err e => e
 
+def ResV.okVal {ε α} [Inhabited α] : ResV ε α → α
+  | .ok a => a
+  | .err _ => default
+@[simp] theorem ResV.okVal_ok {ε α} [Inhabited α] (a : α) : (ResV.ok a : ResV ε α).okVal = a := rfl
+@[simp] theorem ResV.errVal_err {ε α} [Inhabited ε] (e : ε) : (ResV.err e : ResV ε α).errVal = e := rfl
+
 @[simp] theorem ResV.isErr_ok {ε α} (a : α) : (ResV.ok a : ResV ε α).isErr = false := rfl
 @[simp] theorem ResV.isErr_err {ε α} (e : ε) : (ResV.err e : ResV ε α).isErr = true := rfl
 
